@@ -65,7 +65,7 @@ Chain(l) == IF Par[l] = "/" THEN {l} ELSE {l} \cup Chain(Par[l])     \* MutableR
 Comparable(p, q) == p \in Chain(q) \/ q \in Chain(p)
 Children(c) == {x \in Leaf : Par[x] = c}
 Child(o, v) == o \o "." \o ToString(v)
-Sym(o, key) == o \o ".[" \o key.l \o "]"                 \* symbolic location of a computed-key ref
+Sym(o, key) == o \o ".[" \o (IF key.k = "ref" THEN key.l ELSE "expr") \o "]"     \* symbolic location of a computed-key ref
 
 RECURSIVE Locs(_), Reads(_), Eval(_, _), SumOver(_, _)
 (* Locs = specification of _get_dependencies (C05): every location occurring in e, with owner chains. *)
@@ -144,7 +144,8 @@ StructCyclic(D, T) == \E u \in T : u \in ReachR(D, T, {x \in T : x # u /\ Report
 RunTask(D, s, t) ==
   IF t \in Leaf THEN [s EXCEPT !.m[t] = Eval(D[t], s.m)]                         \* ExprTask.run
   ELSE LET sp == TaskSpec[t] IN
-    IF sp.kind = "fn" THEN [s EXCEPT !.m[sp.out] = s.m[sp.ins[1]] + s.m[sp.ins[2]]]   \* FunctionTask.run
+    IF sp.kind = "obs" THEN s                                                        \* a FunctionTask without targets (an observer): runs, writes nothing
+    ELSE IF sp.kind = "fn" THEN [s EXCEPT !.m[sp.out] = s.m[sp.ins[1]] + s.m[sp.ins[2]]]   \* FunctionTask.run
     ELSE LET delta == s.m[sp.src] - s.kp[t]                                       \* LinearKnob.run
          IN [m  |-> [x \in Leaf |-> IF \E i \in 1..Len(sp.tl) : sp.tl[i] = x
                                     THEN s.m[x] + sp.w[CHOOSE i \in 1..Len(sp.tl) : sp.tl[i] = x] * delta
